@@ -67,15 +67,64 @@ CSS_PROFILES = [
     {'type': 'stylesheet', 'syntax': 'stylus', 'options': {'stylesheet.shortHex': False}},
     {'type': 'stylesheet', 'context': {'name': 'padding'}},
 ]
-MARKUP_OK = ['ul>li.item$*3', 'div.b>.-e_m', 'p{$#}*', 'a', 'table>.r>.c', 'div.b_m>.-e+.--f', 'section#s>p.c{t}', 'vs>vr', 'ul>li*', 'x-a[k]{${lang}}',
+MARKUP_OK = ['a[k]+img', 'input[disabled]+br', 'label>span*4', 'x-p>a{http://x.y}', 'doc', 'ul>li.item$*3', 'div.b>.-e_m', 'p{$#}*', 'a', 'table>.r>.c', 'div.b_m>.-e+.--f', 'section#s>p.c{t}', 'vs>vr', 'ul>li*', 'x-a[k]{${lang}}',
              '.blk__el>.-sub', 'input+select', '(a>b)*3', 'h1{$#}']
 MARKUP_BAD = ['a[', 'ul>(', 'a{', 'x[a="b]', 'ul>li*3>(', '(a', '[a=', 'p{a ${1', 'a[b=c"]', 'div.b>.-e{', 'li*>(']
-CSS_OK = ['zom', 'p10', 'm1.5', 'foo', 'zz', 'lh2', 'bd', 'animic', 'foo+zz', 'w100e', 'm10x', 'c#fc0', 'p10+zom', 'q:a', 'bgp', 'fz1.']
+CSS_OK = ['zom', 'p10', 'm1.5', 'foo', 'zz', 'lh2', 'bd', 'animic', 'foo+zz', 'w100e', 'm10x', 'c#fc0', 'p10+zom', 'q:a', 'bgp', 'fz1.',
+          'posa', 'dib', 'tdn', 'ovh', 'bgcl', 'fwb', 'mten', 'm-a', 'pl-a', 'd:ib', 'poa', 'posx', 'zzz', 'foo2', 'c#f.5', 'bxsh', 'trf:r', '@kf', 'cm', 'lg']
 CSS_BAD = ['p(', 'm)', 'p${1', 'a(b', ')']
 
 
+CSS_OPTION_VALUES = {
+    'stylesheet.intUnit': ['px', 'pt', 'q', ''], 'stylesheet.floatUnit': ['em', 'rem', '%'], 'stylesheet.unitless': [[], ['zoom', 'z-index', 'opacity']],
+    'stylesheet.unitAliases': [{'e': 'vw', 'x': 'XX'}, {}], 'stylesheet.shortHex': [True, False], 'stylesheet.between': [': ', ':', ' = '],
+    'stylesheet.after': [';', '', ' ;'], 'stylesheet.fuzzySearchMinScore': [0, 0.3, 0.5, 0.9], 'stylesheet.skipUnmatched': [True, False],
+    'stylesheet.keywords': [['auto', 'inherit'], [], ['auto', 'inherit', 'unset', 'none', 'all']], 'stylesheet.json': [False, True],
+    'output.format': [True, False], 'output.newline': ['\n', '\r\n'],
+}
+MARKUP_OPTION_VALUES = {
+    'bem.enabled': [True, False], 'bem.element': ['__', '-'], 'bem.modifier': ['_', '--'], 'comment.enabled': [True, False], 'comment.trigger': [['id', 'class'], ['class']],
+    'jsx.enabled': [True, False], 'output.attributeQuotes': ['double', 'single'], 'output.selfClosingStyle': ['html', 'xhtml', 'xml'],
+    'output.format': [True, False], 'output.tagCase': ['', 'upper'], 'output.attributeCase': ['', 'upper'], 'output.compactBoolean': [True, False],
+    'output.reverseAttributes': [True, False], 'output.inlineBreak': [0, 2, 3], 'output.indent': ['\t', '  '], 'markup.href': [True, False],
+    'inlineElements': [['a', 'span', 'b'], ['em']], 'output.formatLeafNode': [True, False],
+}
+
+
+def rand_user(rng, kind):
+    "a random option set over (nearly) every option of the type: purity must hold for all of them"
+    vals = MARKUP_OPTION_VALUES if kind == 'markup' else CSS_OPTION_VALUES
+    opts = {k: rng.choice(v) for k, v in vals.items() if rng.random() < 0.3}
+    u = {'options': opts}
+    if kind == 'stylesheet':
+        u['type'] = 'stylesheet'
+        if rng.random() < 0.3:
+            u['syntax'] = rng.choice(['scss', 'sass', 'stylus', 'less'])
+        if rng.random() < 0.3:
+            u['snippets'] = rng.choice([{'foo': 'bar:10', 'zz': 'zed:1.5|2'}, {'posx': 'pos-x:1|2', 'p': 'pad:0'}, {'q': 'quux:a(1, 2)|b'}])
+        if rng.random() < 0.2:
+            u['context'] = {'name': rng.choice(['@@global', '@@section', '@@property', 'padding', 'display'])}
+    else:
+        if rng.random() < 0.3:
+            u['syntax'] = rng.choice(['jsx', 'xml', 'pug', 'haml', 'vue', 'xsl'])
+        if rng.random() < 0.3:
+            u['text'] = rng.choice([['one', ' two ', ''], 'wrapped words', ['x']])
+        if rng.random() < 0.2:
+            u['snippets'] = {'vs': 'x-v[a]>x-w', 'vr': 'vr.x'}
+        if rng.random() < 0.2:
+            u['variables'] = {'lang': 'de', 'charset': 'latin1'}
+        if rng.random() < 0.15:
+            u['maxRepeat'] = rng.choice([1, 2, 5])
+        if rng.random() < 0.15:
+            u['context'] = {'name': rng.choice(['ul', 'div', 'span']), 'attributes': {'class': 'blk'}}
+    return u
+
+
 def slot_spec(rng, kind, cache_ids):
-    prof = copy.deepcopy(rng.choice(MARKUP_PROFILES if kind == 'markup' else CSS_PROFILES))
+    if rng.random() < 0.5:
+        prof = rand_user(rng, kind)
+    else:
+        prof = copy.deepcopy(rng.choice(MARKUP_PROFILES if kind == 'markup' else CSS_PROFILES))
     s = {'user': prof, 'as_config': rng.random() < 0.4, 'cache': rng.choice(cache_ids) if rng.random() < 0.6 else None,
          'raising_field_at': rng.choice([None, None, None, 1, 2, 4]) if kind == 'markup' else None}
     return s
@@ -83,15 +132,24 @@ def slot_spec(rng, kind, cache_ids):
 
 def gen_hostile_cache_history(rng):
     "few keys, one cache, differing unit options: aimed at state shared through the cache"
-    profs = rng.sample(CSS_PROFILES[:7], 2)
+    r = rng.random()
+    if r < 0.3:
+        # two snippet tables, one restricting scope, one cache
+        sc = {'name': rng.choice(['@@section', '@@property', '@@global'])}
+        t1, t2 = rng.sample([{'foo': 'bar:10', 'zz': 'zed:1.5|2'}, {'posx': 'pos-x:1|2', 'p': 'pad:0'}, {'zz': 'raw ${1} body', 'pos': 'vp-x:a|b'}, {}], 2)
+        profs = [{'type': 'stylesheet', 'snippets': t1, 'context': dict(sc)}, {'type': 'stylesheet', 'snippets': t2, 'context': dict(sc)}]
+    elif r < 0.6:
+        profs = rng.sample(CSS_PROFILES[:7], 2)
+    else:
+        profs = [rand_user(rng, 'stylesheet'), rand_user(rng, 'stylesheet')]
     slots = [{'user': copy.deepcopy(p), 'as_config': rng.random() < 0.3, 'cache': 'c0', 'raising_field_at': None} for p in profs]
-    hot = ['zom', 'foo', 'zz', 'p10+zom', 'foo+zz', 'animic', 'm1.5', 'zz+zom']
+    hot = rng.sample(['zom', 'foo', 'zz', 'p10+zom', 'foo+zz', 'animic', 'm1.5', 'zz+zom', 'posa', 'dib', 'tdn', 'ovh', 'bgcl', 'fwb', 'mten', 'posx', 'zzz', 'm-a', 'pos', 'p', '@kf', 'cm'], 5)
     calls = [{'slot': rng.randrange(2), 'abbr': rng.choice(hot)} for _ in range(rng.randint(1, 5))]
     return {'slots': slots, 'calls': calls, 'probe': {'slot': rng.randrange(2), 'abbr': rng.choice(hot)}}
 
 
 def gen_history(rng):
-    if rng.random() < 0.15:
+    if rng.random() < 0.25:
         return gen_hostile_cache_history(rng)
     kind = 'markup' if rng.random() < 0.5 else 'stylesheet'
     cache_ids = ['c0', 'c1']
